@@ -60,6 +60,9 @@ static void build_pool(void) {
     else if (k == 3) pool_add_rational(rnd_in(-7, 7), 1 << rnd(4));
     else pool_add_rational(rnd_in(-7, 7), 1 + rnd(7));
   }
+  /* unit fractions and p/q with small p: their inverses and quotients are integers (or dyadic) reached through isolating
+     intervals that are not aligned with the bisection grid */
+  if (chance(45) && npool < POOL - 4) { long k = 2 + rnd(40); pool_add_rational(chance(50) ? 1 : -1, k); if (chance(50)) pool_add_rational(rnd_in(1, 4) * (chance(50) ? 1 : -1), k); }
   if (npool > 0 && chance(40) && npool < POOL - 2) pool_add_neighbour(rnd(npool), 3 + rnd(30));
 }
 
